@@ -16,8 +16,11 @@ import (
 	"os"
 	"runtime"
 	"strings"
+	"sync"
+	"time"
 
 	"github.com/v-byte-cpu/sx/command"
+	"github.com/v-byte-cpu/sx/pkg/packet"
 	"github.com/v-byte-cpu/sx/pkg/scan"
 	"github.com/v-byte-cpu/sx/pkg/scan/arp"
 	"verifharness/cmd/c01/tgt"
@@ -234,11 +237,132 @@ func mkStagesCase(caseSeed int64) caseJ {
 	return c
 }
 
+// ---------------------------------------------------------------- bursts of bad entries through the engines
+
+type burstJ struct {
+	Kind     string         `json:"kind"` // burst
+	CaseSeed int64          `json:"case_seed"`
+	Engine   string         `json:"engine"` // generic | packet
+	Cmd      string         `json:"cmd"`
+	Mode     int            `json:"mode"`
+	Filter   bool           `json:"filter"`
+	Cache    bool           `json:"cache"`
+	NBad     map[string]int `json:"nbad"` // error class -> number of bad entries with that cause
+	NValid   int            `json:"nvalid"`
+	LateMS   int            `json:"late_ms"`
+	Errors   map[string]int `json:"errors"` // error class -> records that reached the error stream
+	Probes   int            `json:"probes"`
+	Done     bool           `json:"done"`
+}
+
+type countWriter struct {
+	mu sync.Mutex
+	n  int
+}
+
+func (w *countWriter) WritePacketData(_ []byte) error {
+	w.mu.Lock()
+	w.n++
+	w.mu.Unlock()
+	return nil
+}
+
+type noReceiver struct{}
+
+func (noReceiver) ReceivePackets(_ context.Context) <-chan error {
+	c := make(chan error)
+	close(c)
+	return c
+}
+
+type countScanner struct {
+	mu sync.Mutex
+	n  int
+}
+
+func (s *countScanner) Scan(_ context.Context, _ *scan.Request) (scan.Result, error) {
+	s.mu.Lock()
+	s.n++
+	s.mu.Unlock()
+	return nil, nil
+}
+
+// mkBurst: a pairs file with a long run of bad entries (more than the 100 slots of the engines' error channels)
+// between valid ones, through the real GenericEngine / PacketEngine, with an error consumer that starts late:
+// every bad entry must still give exactly one error record.
+func mkBurst(caseSeed int64, engine string) burstJ {
+	tgt.Settle(baseGoroutines)
+	r := hlib.NewRand(caseSeed)
+	c := burstJ{Kind: "burst", CaseSeed: caseSeed, Engine: engine, Cmd: "tcp", NBad: map[string]int{}, Errors: map[string]int{},
+		LateMS: 300 + r.Intn(200)}
+	if engine == "generic" {
+		c.Cmd = "generic"
+	}
+	base := uint32(r.Uint64())
+	var ls []tgt.Line
+	valid := func(n int) {
+		for i := 0; i < n; i++ {
+			ls = append(ls, tgt.RandLine(r, "valid", base+uint32(r.Intn(64))))
+			c.NValid++
+		}
+	}
+	valid(2)
+	nbad := 230 + r.Intn(150)
+	classes := []string{"badip", "badip", "badport", "noip", "noport"}
+	cause := map[string]int{"badip": tgt.EIP, "noip": tgt.EIP, "badport": tgt.EPort, "noport": tgt.EPort}
+	for i := 0; i < nbad; i++ {
+		k := classes[r.Intn(len(classes))]
+		ls = append(ls, tgt.RandLine(r, k, base+uint32(r.Intn(64))))
+		c.NBad[tgt.ClassName[cause[k]]]++
+	}
+	valid(2)
+	opts := &command.VerifTargetOpts{GatewayMAC: net.HardwareAddr{0xee, 1, 2, 3, 4, 5}, Cache: arp.NewCache()}
+	c.Cache = engine == "packet"
+	opts.IPFile = tgt.WriteTemp(tmpDir, fmt.Sprintf("b%d.jsonl", caseSeed&0xffff), tgt.FileText(ls))
+	defer os.Remove(opts.IPFile)
+	ctx, cancel := context.WithCancel(context.Background())
+	defer cancel()
+	rng := &scan.Range{SrcIP: net.IPv4(10, 0, 0, 1).To4(), SrcMAC: net.HardwareAddr{2, 0, 0, 0, 0, 1}}
+	var done <-chan interface{}
+	var errc <-chan error
+	cw, cs := &countWriter{}, &countScanner{}
+	if engine == "generic" {
+		done, errc = command.VerifGenericScanEngine(ctx, opts, 4, cs).Start(ctx, rng)
+	} else {
+		ps := command.VerifScanMethod(ctx, "tcp", opts)
+		done, errc = scan.NewPacketEngine(ps, packet.NewSender(cw), noReceiver{}).Start(ctx, rng)
+	}
+	time.Sleep(time.Duration(c.LateMS) * time.Millisecond) // the logger is late
+	fin := make(chan struct{})
+	go func() {
+		defer close(fin)
+		for err := range errc {
+			c.Errors[tgt.ClassName[tgt.ErrClass(err)]]++
+		}
+	}()
+	select {
+	case <-done:
+		c.Done = true
+	case <-time.After(20 * time.Second):
+	}
+	select {
+	case <-fin:
+	case <-time.After(5 * time.Second):
+	}
+	cw.mu.Lock()
+	cs.mu.Lock()
+	c.Probes = cw.n + cs.n
+	cs.mu.Unlock()
+	cw.mu.Unlock()
+	return c
+}
+
 func main() {
 	out := flag.String("out", "cases.jsonl", "output file")
 	seed := flag.Int64("seed", 1, "seed")
 	count := flag.Int("n", 600, "number of file cases")
 	nst := flag.Int("nstages", 200, "number of decorator cases")
+	nburst := flag.Int("nburst", 2, "number of error-burst cases (alternating generic / packet engine)")
 	one := flag.String("replay", "", "replay one case: file:<case seed> | stages:<case seed>")
 	flag.Parse()
 	baseGoroutines = runtime.NumGoroutine()
@@ -253,7 +377,9 @@ func main() {
 		kind, rest, _ := strings.Cut(*one, ":")
 		var cs int64
 		fmt.Sscan(rest, &cs)
-		if kind == "stages" {
+		if kind == "burst-generic" || kind == "burst-packet" {
+			w.Put(mkBurst(cs, strings.TrimPrefix(kind, "burst-")))
+		} else if kind == "stages" {
 			w.Put(mkStagesCase(cs))
 		} else {
 			w.Put(mkFileCase(cs))
@@ -266,5 +392,8 @@ func main() {
 	}
 	for i := 0; i < *nst; i++ {
 		w.Put(mkStagesCase(r.Int63()))
+	}
+	for i := 0; i < *nburst; i++ {
+		w.Put(mkBurst(r.Int63(), []string{"generic", "packet"}[i%2]))
 	}
 }
